@@ -103,6 +103,12 @@ func genCase(t *rapid.T) Case {
 			}
 			parsed = true
 			account(m.Size + 6)
+		case k == 5 && parsed && rapid.IntRange(0, 2).Draw(t, "other-name") == 0:
+			m.K, m.Size = "parse-other", size(7)
+			if m.Size == 0 {
+				m.Size = 1
+			}
+			account(m.Size + 7)
 		case k == 5 && parsed:
 			m.K, m.Size = "bind", size(22)
 			bound = true
@@ -129,6 +135,9 @@ func genCase(t *rapid.T) Case {
 			account(m.Size + 1)
 		}
 		c.Msgs = append(c.Msgs, m)
+	}
+	if rapid.IntRange(0, 3).Draw(t, "bounded-cache") == 0 {
+		c.StmtCap = 1
 	}
 	if rapid.IntRange(0, 3).Draw(t, "segmented") == 0 {
 		c.Segs = gen.Segments().Draw(t, "segs")
